@@ -1295,7 +1295,7 @@ def run(ctx, only=None):
                 yield "after-prefix%d-full" % pi, pre + (m,)
             for t in itertools.product(full if ctx.thorough else reduced, repeat=2):
                 yield "after-prefix%d-%s" % (pi, "full" if ctx.thorough else "reduced"), pre + t
-            if ctx.thorough:
+            if ctx.thorough and pi < 2:
                 for t in itertools.product(reduced, repeat=3):
                     yield "after-prefix%d-reduced" % pi, pre + t
 
@@ -1310,7 +1310,7 @@ def run(ctx, only=None):
 
     rich = alphabet(real, (0, 1, 2), (0, 1, 2, 3), rich=True, names=(None, 5))
     rng = ctx.rng.fork("sampled")
-    n = ctx.scale(3000, 50000)
+    n = ctx.scale(3000, 30000)
     check_batch(ctx, real, sample_sequences(real, rng, rich, n, 3, ctx.scale(10, 14)), "sampled")
 
 
